@@ -207,8 +207,10 @@ interpolate_cubic(const LieGroupBase<_Derived>& ma,
     const Scalar h10 =  t3 - Scalar(2)*t2 + t;
     const Scalar h11 =  t3 - t2;
 
-    const auto l = ma.rplus(tab*h00).rplus(ta*h10);
-    const auto r = mb.rplus(tab*(-h01)).rplus(tb*h11);
+    // h01 goes from 0 to 1: l starts at ma and ends at mb,
+    // r (anchored at mb) starts h00(0) = 1 times tab before mb, i.e. at ma
+    const auto l = ma.rplus(tab*h01).rplus(ta*h10);
+    const auto r = mb.rplus(tab*(-h00)).rplus(tb*h11);
     const auto B = l.rminus(r);
 
     mc = r.rplus(B);
